@@ -423,7 +423,8 @@ def impl_indexed(e, case):
         return out
 
     out = snapshot(f, df._h5group["f"] if h5 else None)
-    out["staged"] = [int(f.data._value_index), int(f.data._index_index)]
+    # fill levels of the staging buffers after complete(): internal state, compared only while the attributes exist
+    out["staged"] = [int(getattr(f.data, "_value_index", 0)), int(getattr(f.data, "_index_index", 0))]
     if h5:
         ds2 = _reopen(e, bio)
         f2 = ds2["df"]["f"]
